@@ -263,6 +263,9 @@ func RunC13(c *core.Ctx) {
 		"every foreign key, impossible signature lengths (truncated, padded, r||0000||s), algorithm header swapped / unknown / missing / wrong type, generic CBOR " +
 		"mutations; HMAC-256/384 MAC_structure digests incl. wrong key sizes. Model (extracted sign1_verify with stdlib oracle) vs Sign1.Verify; monitor on the " +
 		"implementation: honest verifies, anything whose decoded (protected, payload, signature), AAD or key differs does not, nothing panics. " +
+		"COSE_Mac0 verification: genuine tunnel messages of the 4 encrypt-then-MAC suites between two real sessions, both directions, tag item rebuilt at byte " +
+		"level (every byte flipped, every truncation, extensions, other key / data / context / hash, non-byte-string items, tag missing) x ciphertext untouched / " +
+		"altered: the receiver must refuse (model crypter_decrypt vs library on the same bytes, and a monitor on the receiving session alone). " +
 		"non-trivial = object decoded; distinct = distinct case line"
 	c.Trivial = func(o core.Obs) bool { return o.Impl == "err-decode" }
 	ks := testKeys()
@@ -497,4 +500,6 @@ func RunC13(c *core.Ctx) {
 			}
 		}
 	}
+	// COSE_Mac0 VERIFICATION (kex.SessionCrypter.Decrypt of the encrypt-then-MAC suites): see mac0_more.go
+	runMac0Verify(c, false)
 }
